@@ -25,7 +25,15 @@ CORPUS = [
     ({"required": ["a"], "additionalProperties": False}, [{"a": 1}, {}]),
     ({"const": [1]}, [[True], [1], [1.0]]),
     ({"enum": [{"a": False}, [0]]}, [{"a": 0}, {"a": False}, [False], [0.0]]),
-    ({"uniqueItems": True}, [[[1], [True]], [1, True], [1, 1.0], [{"a": 1}, {"a": True}], [[0], [False]]]),
+    ({"uniqueItems": True}, [[[1], [True]], [1, True], [1, 1.0], [{"a": 1}, {"a": True}], [[0], [False]],
+                             [[1], [1.0]], [{"a": 2}, {"a": 2.0}], [[], 3, 3.0], [{"n": [100.0]}, {"n": [100]}], [[0, 1], [0.0, 1]], [[1], [2]]]),
+    ({"properties": {"rows": {"uniqueItems": True}}}, [{"rows": [[0, 1], [0.0, 1]]}, {"rows": [[0, 1], [1, 0]]}]),
+    # a member name matched by several patternProperties: every matching schema applies (also next to a declared property)
+    ({"patternProperties": {"^a": {"type": "integer"}, "b$": {"minimum": 5}}}, [{"ab": 3}, {"ab": 7}, {"ab": "x"}, {"a": 3}, {"b": 3}, {"b": 7}]),
+    ({"type": "object", "title": "T", "properties": {"ab": {"type": "number"}}, "patternProperties": {"^a": {"maximum": 10}, "b$": {"minimum": 5}}},
+     [{"ab": 3}, {"ab": 7}, {"ab": 12}, {"ab": "s"}]),
+    ({"patternProperties": {"^x": True, "y$": False}, "additionalProperties": False}, [{"xy": 1}, {"x": 1}, {"y": 1}, {"z": 1}, {}]),
+    ({"patternProperties": {"^x": {"type": "string"}, "y$": {"maxLength": 2}, "^.y$": {"minLength": 2}}}, [{"xy": "a"}, {"xy": "ab"}, {"xy": "abc"}, {"xy": 1}]),
     ({"type": "object", "title": "T", "properties": {"a b": {"type": "string"}, "a_b": {"type": "integer"}}},
      [{"a b": "x", "a_b": 1}, {"a b": 1}, {"a_b": "x"}]),
     ({"type": "object", "title": "T", "properties": {"a": {"type": "integer", "default": 3}}, "required": ["a"]}, [{}, {"a": 1}, {"a": "x"}]),
